@@ -95,7 +95,9 @@ def run_case(case):
         try:
             res = p.pf.to_pandas(filters=F)
         except Exception as e:
-            return discard("filter_refused:%s:%s" % (type(e).__name__, "+".join(sorted(fc.const_classes(case)))), labels)
+            if fc.is_refusal(e):
+                return discard("filter_refused:%s:%s" % (type(e).__name__, "+".join(sorted(fc.const_classes(case)))), labels)
+            return viol("read_raised|" + exc_sig(e), exc_detail(e), labels=labels)
         if "_rid" not in res.columns:
             return viol("no_rid", "filtered result lacks the _rid column: %r" % list(res.columns), labels=labels)
         rr = [int(x) for x in res["_rid"].tolist()]
@@ -125,7 +127,7 @@ def run_case(case):
                 continue
             must = [x for x in g if p.verdict[x] == mf.T]
             if must:
-                return viol("lost|" + _why(case, p, must[0]) + _notin_bound(case, p, g), "row group %d (row ids %r) was pruned although row %d must qualify; "
+                return viol("lost|" + _why(case, p, must[0]) + fc.notin_bound(case, p, g), "row group %d (row ids %r) was pruned although row %d must qualify; "
                             "filters=%r" % (gi, g[:20], must[0], F), labels=labels)
         # the other entry points agree
         try:
@@ -166,32 +168,6 @@ def _why(case, p, rid):
         if mf.conj([mf.cond(op, row[col], val) for col, op, val in gm]) == mf.T:
             return "+".join(sorted({"%s:%s%s" % (c["op"], cols[c["col"]]["kind"], ":part" if c["col"] in pn else "") for c in g}))
     return "?"
-
-
-def _notin_bound(case, p, group_rids):
-    """Marker for the known 'not in' defect: some `not in` list contains the smallest or
-    largest non-missing value the column takes in the pruned row group (that is exactly
-    when filter_not_in answers 'exclude')."""
-    from vf.gen import filters as gf
-    fr = case["frame"]
-    cols = {c["name"]: c for c in fr["cols"]}
-    for g, gm in zip(case["filters"]["groups"], p.groups_model):
-        for c, (col, op, val) in zip(g, gm):
-            if op != "not in" or not val:
-                continue
-            cells = gf.cell_values(cols[col], fr["n"])
-            present = [cells[r] for r in group_rids if cells[r] is not mf.MISSING]
-            keys = [mf._key(x) for x in present]
-            if not keys:
-                continue
-            try:
-                lo, hi = min(keys), max(keys)
-            except TypeError:
-                continue
-            vals = [mf._key(v) for v in val if mf._cls(v) == mf._cls(present[0])]
-            if lo in vals or hi in vals:
-                return "|notin_bound"
-    return ""
 
 
 def shrink_moves(case):
